@@ -225,6 +225,17 @@ def run_history(res, exe, rng, hidx):
                     if err:
                         fail("schedule/refused-write", err + " | script tail: " + "; ".join(script[-6:])); return
                     continue
+                fill = []
+                if m.P > 0 and rng.random() < 0.12:
+                    # the timer pool is completely in use at the moment of the write (application timers take every free block): the
+                    # running heartbeat gives its block back, so the new period starts all the same
+                    while len(fill) < 40:
+                        r = sim.ret("tmrcreate 60000 0 %d" % (16 + len(fill)))
+                        if r is None or int(r[0]) < 0:
+                            break
+                        fill.append(int(r[0]))
+                    script.append("pool filled with %d application timers" % len(fill))
+                    res.counters["writes_with_full_pool"] += 1
                 if m.mode in (PREOP, OP) and rng.random() < 0.6:
                     script.append("sdo write 1017 = %d" % ms)
                     t0 = sim.tick
@@ -236,6 +247,8 @@ def run_history(res, exe, rng, hidx):
                     r = [e for e in evs if e[0] == "ret"]
                     if not r or r[0][1] != "0":
                         fail("write-refused", "CODictWrWord(1017h, %d) failed: %r" % (ms, r)); return
+                for id_ in fill:
+                    sim.cmd("tmrdelete %d" % id_)
                 m.on_write(ms, sim.tick)
                 nwrites += 1
             elif x < 0.70:
